@@ -991,11 +991,34 @@ class T:
         return self.fill_(0)
 
     # full reductions producing a one-element tensor usable in `if`
+    def _reduce_time_axis(self, a, k, op):
+        """amin / amax over the time axis only, when its length is a small concrete number: an element-wise fold"""
+        dim = a[0] if a else k.get("dim")
+        if dim is None or isinstance(dim, (tuple, list)) or self.tlen is None:
+            return None
+        z = z3.simplify(num(self.tlen))
+        d = z3.simplify(num(dim)) if not isinstance(dim, int) else z3.IntVal(dim)
+        if not (z3.is_int_value(z) and 1 <= z.as_long() <= 8 and z3.is_int_value(d)):
+            return None
+        if not ((d.as_long() == 0 and self.taxis == "first") or (d.as_long() == -1 and self.taxis == "last")):
+            return None
+        n, f = z.as_long(), self.f
+        r = f(z3.IntVal(0))
+        for i in range(1, n):
+            v = f(z3.IntVal(i))
+            r = z3.If(v < r, v, r) if op == "amin" else z3.If(v > r, v, r)
+        nan = None
+        if self.nan is not None:
+            nan = z3.Or([self.nan_at(z3.IntVal(i)) for i in range(n)])
+        return T(r, self.dtype, None, None, self.eshape, nan)
+
     def amin(self, *a, **k):
-        return _full_reduce(self, "amin")
+        r = self._reduce_time_axis(a, k, "amin")
+        return r if r is not None else _full_reduce(self, "amin")
 
     def amax(self, *a, **k):
-        return _full_reduce(self, "amax")
+        r = self._reduce_time_axis(a, k, "amax")
+        return r if r is not None else _full_reduce(self, "amax")
 
     def min(self, *a, **k):
         if a or k:
@@ -1302,6 +1325,8 @@ class T:
         return self
 
     def t(self):
+        if self.tlen is not None and isinstance(self.eshape, Shape) and len(self.eshape.items) == 0:
+            return self  # torch: .t() of a 1-D tensor is the tensor itself
         raise Unsupported("transpose")
 
 
